@@ -40,8 +40,17 @@ H0 == 3       \* the chain tip the node reports
 \* <<height, lock_height>> of an output relative to the tip H0 = 3:
 \*   <<1,0>> 3 confirmations   <<3,0>> 1 confirmation   <<4,0>> above the tip
 \*   <<2,3>> matures exactly now   <<2,4>> still immature
-HLFull  == {<<1, 0>>, <<2, 0>>, <<3, 0>>, <<4, 0>>, <<2, 3>>, <<2, 4>>}
-HLSmall == {<<1, 0>>, <<3, 0>>, <<2, 4>>}
+\*   <<0,0>> a coinbase of that height matures exactly now (0 + CbMaturity = H0)
+HLFull  == {<<0, 0>>, <<1, 0>>, <<2, 0>>, <<3, 0>>, <<4, 0>>, <<2, 3>>, <<2, 4>>}
+HLSmall == {<<0, 0>>, <<1, 0>>, <<3, 0>>, <<2, 4>>}
+\* The refresh that precedes every selection takes an output's height from the node and - for a coinbase - its
+\* maturity from THAT height (fix: C04 HeightsFromChain): the records of the source account that the node reports
+\* (Unspent / Locked) are injected consistent with it, so that the case says what the selection really sees.
+CbMaturity == 3
+NormOuts(outs, src) ==
+  [i \in DOMAIN outs |->
+     IF outs[i].cb /\ outs[i].st \in {"Unspent", "Locked"} /\ outs[i].acct = src
+     THEN [outs[i] EXCEPT !.lk = outs[i].h + CbMaturity] ELSE outs[i]]
 Statuses == {"Unconfirmed", "Unspent", "Locked", "Spent", "Reverted"}
 Plain(v, a) == [v |-> v, st |-> "Unspent", h |-> 1, lk |-> 0, cb |-> FALSE, acct |-> a]
 
@@ -73,7 +82,7 @@ AmtsE(outs) == {10, 60, 130}
 
 \* ---------------------------------------------------------------- cases
 MkCase(w, amt, inc, mc, mo, nch, ua, src, fl) ==
-  [fam |-> w.fam, outs |-> w.outs, amt |-> amt, incfee |-> inc, height |-> H0, minconf |-> mc,
+  [fam |-> w.fam, outs |-> NormOuts(w.outs, src), amt |-> amt, incfee |-> inc, height |-> H0, minconf |-> mc,
    maxouts |-> mo, nchange |-> nch, useall |-> ua, src |-> src, flow |-> fl]
 
 \* (an invoice's amount is the issuer's: the payer's amount-includes-fee option cannot change what the issuer's
@@ -103,7 +112,7 @@ Mix(x) == LET h1 == (x * 31337 + 911) % PW
 Rn(k, j) == Mix(Mix((k * 131 + j * 7 + Seed * 1009) % PW))
 Pick(seq, r) == seq[1 + (r % Len(seq))]
 WideOut(k, i) ==
-  LET hl == Pick(<< <<1, 0>>, <<1, 0>>, <<1, 0>>, <<2, 0>>, <<3, 0>>, <<4, 0>>, <<2, 3>>, <<2, 4>> >>, Rn(k, 40 + i)) IN
+  LET hl == Pick(<< <<1, 0>>, <<1, 0>>, <<0, 0>>, <<2, 0>>, <<3, 0>>, <<4, 0>>, <<2, 3>>, <<2, 4>>, <<0, 0>> >>, Rn(k, 40 + i)) IN
   [v    |-> 10 * (3 + (Rn(k, 10 + i) % 13)),
    st   |-> Pick(<<"Unspent", "Unspent", "Unspent", "Unspent", "Unspent", "Unspent", "Unconfirmed", "Locked", "Spent", "Reverted">>, Rn(k, 20 + i)),
    h    |-> hl[1], lk |-> hl[2],
@@ -129,7 +138,7 @@ WideCase(k) ==
       d    == (Rn(k, 61) % 15) - 2
       base == SumFirst(vals, j) - (IF inc /\ fl = "send" THEN 0 ELSE Fee(j, o, 1)) - d
       amt  == IF Rn(k, 62) % 25 = 0 THEN TOP - (Rn(k, 63) % 60) ELSE Max2(0, base)
-  IN [fam |-> "wide", outs |-> outs, amt |-> amt, incfee |-> inc, height |-> H0, minconf |-> mc,
+  IN [fam |-> "wide", outs |-> NormOuts(outs, src), amt |-> amt, incfee |-> inc, height |-> H0, minconf |-> mc,
       maxouts |-> mo, nchange |-> nch, useall |-> ua, src |-> src, flow |-> fl]
 WideCases == {WideCase(k) : k \in 1..NWide}
 
